@@ -81,7 +81,7 @@ def template_override(p):
 
 def modelled(p, m):
     """Can PyIR.Ctl.InstanceChk speak for protocol p (model m)?"""
-    if not engine.modelled_H(p) or not p['parameters'] or not all(len(b) == 2 for b in p['bursts']):
+    if not engine.modelled_C(p) or not p['parameters'] or not all(len(b) == 2 for b in p['bursts']):
         return False, 'engine class %s%s outside the instance model' % (p['eclass'], ' with middle timings' if p['middle'] else '')
     if p['rep_bursts']:
         return False, 'repeat frames carry data (_repeat_bursts not empty)'
